@@ -11,4 +11,8 @@ for p in $props; do
   ./bin/vcheck -p $p -tier $tier -harness "$base/harness" -evidence "$base/evidence" -replays "$base/replays" -known "$base/known_findings.json" > logs/${tier}_$p.log 2>&1; rc=$?
   e=$(date +%s)
   echo "$p exit=$rc $((e-s))s $(grep -c '^VIOLATION' logs/${tier}_$p.log) violations, $(grep -c '^REDUCED' logs/${tier}_$p.log) reduced, $(grep -c '^KNOWN' logs/${tier}_$p.log) known"
+  if [ $rc -ne 0 ] || grep -q '^REDUCED\|^SPURIOUS' logs/${tier}_$p.log; then
+    grep -E '^(VIOLATION|REDUCED|SPURIOUS|REPLAY-MISMATCH|VACUOUS|harness |vcheck )|counterexample' logs/${tier}_$p.log | cut -c1-400 | head -40
+    for f in $(grep -o 'replay=[^ ]*' logs/${tier}_$p.log | cut -d= -f2 | head -3); do echo "--- $f"; head -c 2500 "$f"; echo; done
+  fi
 done
